@@ -11,6 +11,7 @@ import H3.Drv.C01
 import H3.Drv.C12
 import H3.Drv.C07
 import H3.Drv.C19
+import H3.Drv.C04
 open H3.Drv
 
 def dispatch (ws : List String) : String :=
@@ -29,6 +30,7 @@ def dispatch (ws : List String) : String :=
     else if e == "hdr" then H3.Drv.C12.handle ws
     else if e == "iso" then H3.Drv.C07.handle ws
     else if e == "wt" then H3.Drv.C19.handle ws
+    else if e == "ctl" then H3.Drv.C04.handle ws
     else "bad-op"
 
 partial def loop (h : IO.FS.Stream) (out : IO.FS.Stream) : IO Unit := do
